@@ -5,9 +5,9 @@ From RV Require Import Prelude.
 From Gemm Require Import GemmModel.
 Open Scope N_scope.
 
-(* integer-valued test data in [-8, 8] *)
+(* integer-valued test data in [-8, 7] *)
 Definition gen (s i j : N) : Z :=
-  (Z.of_N ((s * 7919 + i * 31 + j * 17 + ((i * j) mod 7) * 5 + (((i + s) * (j + 3)) mod 11)) mod 17) - 8)%Z.
+  (Z.of_N (N.land (s + i * 5 + j * 3 + i * j * 7 + N.shiftr i 4 * 3 + N.shiftr j 4 * 5) 15) - 8)%Z.
 
 Inductive obs :=
 | OFull (l : list Z)                      (* the whole output, row-major *)
@@ -92,24 +92,42 @@ Definition sumZ (f : N -> Z) (n : N) : Z := fold_left (fun acc t => (acc + f t)%
 Fixpoint dotl (a b : list Z) : Z :=
   match a, b with x :: a', y :: b' => (x * y + dotl a' b')%Z | _, _ => 0%Z end.
 
-Definition spec_row_sums (g : gemm_case) : list Z :=
+(* x + a * y, element-wise *)
+Fixpoint axpy (a : Z) (y x : list Z) : list Z :=
+  match y, x with
+  | v :: y', u :: x' => (u + a * v)%Z :: axpy a y' x'
+  | _, _ => x
+  end.
+Definition rows_of (f : N -> N -> Z) (r c : N) : list (list Z) :=
+  map (fun i => map (f i) (nrange 0 c)) (nrange 0 r).
+Definition zeros (n : N) : list Z := map (fun _ => 0%Z) (nrange 0 n).
+(* sum_i w_i * row_i *)
+Definition wsum_rows (w : N -> Z) (rows : list (list Z)) (len : N) : list Z :=
+  snd (fold_left (fun '(i, acc) row => (N.succ i, axpy (w i) row acc)) rows (0, zeros len)).
+
+(* (row checksums, column checksums) of the specified output; every matrix element is generated
+   once *)
+Definition spec_sums (g : gemm_case) : list Z * list Z :=
   let m := g_m g in let n := g_n g in let k := g_k g in
-  let A := matA g in let B := matB g in let bs := bias_of g in
-  let Bw := map (fun t => sumZ (fun j => (B t j * wc j)%Z) n) (nrange 0 k) in
-  map (fun i =>
-         (g_alpha g * dotl (map (A i) (nrange 0 k)) Bw
-          + (if (g_beta g =? 0)%Z then 0 else g_beta g * sumZ (fun j => gen (g_sc g) i j * wc j) n)
-          + sumZ (fun j => bias_at ZK bs i j * wc j) n)%Z)
-      (nrange 0 m).
-Definition spec_col_sums (g : gemm_case) : list Z :=
-  let m := g_m g in let n := g_n g in let k := g_k g in
-  let A := matA g in let B := matB g in let bs := bias_of g in
-  let Aw := map (fun t => sumZ (fun i => (A i t * wr i)%Z) m) (nrange 0 k) in
-  map (fun j =>
-         (g_alpha g * dotl Aw (map (fun t => B t j) (nrange 0 k))
-          + (if (g_beta g =? 0)%Z then 0 else g_beta g * sumZ (fun i => gen (g_sc g) i j * wr i) m)
-          + sumZ (fun i => bias_at ZK bs i j * wr i) m)%Z)
-      (nrange 0 n).
+  let bs := bias_of g in
+  let Arows := rows_of (matA g) m k in
+  let Brows := rows_of (matB g) k n in
+  let wcs := map wc (nrange 0 n) in
+  let Bw := map (dotl wcs) Brows in                       (* Bw[t] = sum_j B[t][j] wc j *)
+  let Aw := wsum_rows wr Arows k in                       (* Aw[t] = sum_i A[i][t] wr i *)
+  let ABr := map (fun arow => dotl arow Bw) Arows in      (* sum_j (AB)[i][j] wc j *)
+  let ABc := wsum_rows (fun t => nth (N.to_nat t) Aw 0%Z) Brows n in   (* sum_i (AB)[i][j] wr i *)
+  let '(Cr, Cc) :=
+    if (g_beta g =? 0)%Z then (zeros m, zeros n)
+    else let Crows := rows_of (gen (g_sc g)) m n in
+         (map (dotl wcs) Crows, wsum_rows wr Crows n) in
+  let biasr := map (fun i => sumZ (fun j => (bias_at ZK bs i j * wc j)%Z) n) (nrange 0 m) in
+  let biasc := map (fun j => sumZ (fun i => (bias_at ZK bs i j * wr i)%Z) m) (nrange 0 n) in
+  let comb := fun ab c b => (g_alpha g * ab + g_beta g * c + b)%Z in
+  (map (fun '(ab, (c, b)) => comb ab c b) (combine ABr (combine Cr biasr)),
+   map (fun '(ab, (c, b)) => comb ab c b) (combine ABc (combine Cc biasc))).
+Definition spec_row_sums (g : gemm_case) : list Z := fst (spec_sums g).
+Definition spec_col_sums (g : gemm_case) : list Z := snd (spec_sums g).
 
 Fixpoint eq_listZ (a b : list Z) : bool :=
   match a, b with
@@ -128,7 +146,7 @@ Definition obs_matches_spec (g : gemm_case) (o : obs) : bool :=
   match o with
   | OFull l => eq_cells (all_cells (g_m g) (g_n g) (spec_out g)) l
   | OSums rows cols samples =>
-      eq_listZ (spec_row_sums g) rows && eq_listZ (spec_col_sums g) cols
+      (let '(r, c) := spec_sums g in eq_listZ r rows && eq_listZ c cols)
       && forallb (sample_ok g) samples
   | OPanic | OErr => false
   end.
@@ -153,13 +171,13 @@ Definition pack_model (p : pack_case) : list Z :=
 
 (* ---- agree / prop_ok / show ---- *)
 Definition agree_g (g : gemm_case) : bool :=
-  params_okb (g_P g) && (0 <? g_bb g) && (0 <? g_kb g) &&
+  ((g_m g =? 0) || (g_n g =? 0) || (g_k g =? 0) || params_okb (g_P g)) && (0 <? g_bb g) && (0 <? g_kb g) &&
   (if g_small g
    then match g_obs g with
         | OFull l => eq_cells (all_cells (g_m g) (g_n g) (model_out g)) l
         | _ => false
         end
-   else obs_matches_spec g (g_obs g)).   (* model = spec by C16_blocked_gemm_correct *)
+   else true).   (* large cases: model = spec by C16_blocked_gemm_correct; spec vs output is [prop_ok] *)
 Definition agree (c : case) : bool :=
   match c with
   | CG g => agree_g g
@@ -182,6 +200,9 @@ Definition prop_ok (c : case) : bool :=
   | CP p => match k_out p with Some _ => true | None => false end
   | CB e g => Bool.eqb e g
   end.
+
+(* alarms are raised on the property oracle only (see checks/C16.py) *)
+Definition always (c : case) : bool := true.
 
 Definition show (c : case) :=
   match c with
